@@ -55,6 +55,7 @@ type Spec struct {
 	Tier        string
 	Seed        int64
 	Jobs        []*Job
+	Filter      func(kind, label string) bool // which findings belong to this property (nil: all)
 	Rule        string
 	Bounds      map[string]interface{}
 	Assumptions []string
@@ -101,6 +102,9 @@ func RunCheck(l *Loaded, spec *Spec, opt Options) int {
 	var cands []*candidate
 	for _, r := range results {
 		for _, f := range r.Findings {
+			if spec.Filter != nil && !spec.Filter(f.Kind, f.Label) {
+				continue
+			}
 			key := spec.Prop + "|" + r.Job.Key + "|" + f.Kind + "|" + f.Label
 			c := &Case{Property: spec.Prop, Key: key, Pkg: r.Job.Pkg, Fn: r.Job.Fn, Params: r.Job.Params,
 				Vals: ToVals(f.Model), Kind: f.Kind, Label: f.Label, Where: f.Where}
@@ -132,9 +136,7 @@ func RunCheck(l *Loaded, spec *Spec, opt Options) int {
 	for _, cd := range cands {
 		if !cd.outcome.Reproduced {
 			unconfirmed = append(unconfirmed, cd.c.Key+" :: "+cd.outcome.Detail)
-			if opt.Verbose {
-				fmt.Printf("unconfirmed: %s :: %s\n", cd.c.Key, cd.outcome.Detail)
-			}
+			fmt.Printf("unconfirmed (engine counterexample does not reproduce natively; not reported): %s :: %s\n", cd.c.Key, cd.outcome.Detail)
 			continue
 		}
 		if k, ok := known[cd.c.Key]; ok {
@@ -164,8 +166,14 @@ func RunCheck(l *Loaded, spec *Spec, opt Options) int {
 	// vacuity: required cover points
 	var vacuous []string
 	for _, r := range results {
+		aborted := false
+		for _, f := range r.Findings {
+			if f.Kind == "hang" || f.Kind == "panic" {
+				aborted = true // the run ended in a reported finding: later cover points are legitimately unreached
+			}
+		}
 		for _, cv := range r.Job.Covers {
-			if r.Covers[cv] == 0 {
+			if r.Covers[cv] == 0 && !aborted {
 				vacuous = append(vacuous, r.Job.Key+": cover point "+cv+" not reached")
 			}
 		}
